@@ -89,6 +89,6 @@ def quantile(a, q, axis=0, newaxis=None, out=None, overwrite_input=False):
 
     # change the percentile axis into quantile axis
     if not np.isscalar(q):
-        res.axes[axis].values /= 100.
+        res.axes[newaxis].values /= 100. # the new axis (always first), not the operand's axis at position `axis`
 
     return res
